@@ -47,6 +47,7 @@ type WW struct {
 	Strict       bool
 	NoFaults     bool
 	forceSendAll bool
+	forceSend    *forcedSend // fixed scenarios: who sends how much with which fee flag
 	// NextPlans: fault plans for the next wallet operation of send / receive / melt / reclaim (consumed by it)
 	NextPlans []*FaultPlan
 	LastOp    string
@@ -202,8 +203,17 @@ func (ww *WW) takePlans() []*FaultPlan {
 }
 
 // StepSend: Wallet.Send; the C18 oracle judges the returned proofs; the token goes to the channel.
+type forcedSend struct {
+	w      string
+	amount uint64
+	fees   bool
+}
+
 func (ww *WW) StepSend() *OutToken {
 	w := ww.pickWallet()
+	if ww.forceSend != nil {
+		w = ww.forceSend.w
+	}
 	mints := ww.walletMints(w)
 	mint := mints[ww.T.Choose("send.at", len(mints))]
 	bal := ww.balanceAt(w, mint)
@@ -219,6 +229,9 @@ func (ww *WW) StepSend() *OutToken {
 		amount = bal - bal/8 - 1 // nearly everything: proofs of every keyset held are needed
 	}
 	fees := ww.T.Chance("send.fees", 1, 2)
+	if ww.forceSend != nil {
+		amount, fees = ww.forceSend.amount, ww.forceSend.fees
+	}
 	ww.op(fmt.Sprintf("w.send fees=%v", fees))
 	n := ww.node(w)
 	before := n.View()
@@ -694,13 +707,53 @@ func (ww *WW) StepReclaim() {
 	}
 	remove := ww.T.Chance("reclaim.remove", 1, 2)
 	ww.op(fmt.Sprintf("w.reclaim remove=%v", remove))
-	ww.W.WalletOp(w, ww.name("reclaim."+w), ww.takePlans(), func(wl *wallet.Wallet) {
+	plans := ww.takePlans()
+	var rerr error
+	ww.W.WalletOp(w, ww.name("reclaim."+w), plans, func(wl *wallet.Wallet) {
 		if remove {
-			wl.RemoveSpentProofs()
+			rerr = wl.RemoveSpentProofs()
 		} else {
-			wl.ReclaimUnspentProofs()
+			_, rerr = wl.ReclaimUnspentProofs()
 		}
 	})
+	// C17, "pending ... not yet reconciled": after a reconciliation that reported no error, what the
+	// wallet handed out in tokens and the mint has since seen spent (remove-spent), or still holds unspent
+	// (reclaim), is no longer pending
+	if ww.NoFaults && len(plans) == 0 && rerr == nil {
+		handed := map[string]string{}
+		for _, t := range ww.Tokens {
+			if t.From == w {
+				for _, p := range t.Proofs {
+					handed[p.Secret] = t.Mint
+				}
+			}
+		}
+		byMint := map[string][]string{}
+		for _, p := range n.Inner.GetPendingProofs() {
+			if m, ok := handed[p.Secret]; ok {
+				byMint[m] = append(byMint[m], p.Y)
+			}
+		}
+		stale := "SPENT"
+		if !remove {
+			stale = "UNSPENT"
+		}
+		mnames := make([]string, 0, len(byMint))
+		for m := range byMint {
+			mnames = append(mnames, m)
+		}
+		sort.Strings(mnames)
+		for _, m := range mnames {
+			st := ww.W.MintState(m, byMint[m])
+			for _, y := range byMint[m] {
+				if st[y] == stale {
+					ww.W.Book.Violate("C17.pending_not_reconciled", fmt.Sprintf("remove=%v|%s", remove, stale),
+						"after [%s] (no error) %s still counts a handed-out proof as pending that is %s at the mint", ww.LastOp, w, stale)
+				}
+			}
+		}
+		ww.rc.S.Probe("c17_reconcile_judged")
+	}
 	// tokens whose proofs the sender reclaimed are void now
 	for _, t := range ww.Tokens {
 		if !t.Claimed && t.From == w && !remove {
